@@ -225,6 +225,12 @@ class Arr:
         a = Arr(self.shape, f, self.dtype)
         if self.fields is not None:
             a.fields = {k: v.snapshot() for k, v in self.fields.items()}
+        g = getattr(self, 'grid', None)
+        if g is not None and getattr(self, '_grid_f', f) is f:
+            # a copy of an equally spaced grid is that grid - as long as nobody writes into the copy: the description is tied to
+            # the element closure it was made for (contracts use `valid_grid`)
+            a.grid = g
+            a._grid_f = f
         return a
 
     def size(self):
@@ -235,6 +241,14 @@ class Arr:
 
     def __repr__(self):
         return 'Arr(%s,%s,%s)' % (self.label, self.shape, self.dtype)
+
+
+def valid_grid(a):
+    """the (a0, h, n) description of an equally spaced array, if it has one that still describes its current elements"""
+    g = getattr(a, 'grid', None)
+    if g is None or getattr(a, '_grid_f', a.f) is not a.f:
+        return None
+    return g
 
 
 class SymList:
